@@ -30,12 +30,16 @@ def selector(sig):
     return h.digest()[:4]
 
 
-def make_method(name, marker):
+def plain_fn(name, marker):
     def impl():
         return pt.Log(pt.Bytes(marker))
     impl.__name__ = name
     impl.__annotations__ = {"return": pt.Expr}
-    return pt.ABIReturnSubroutine(impl)
+    return impl
+
+
+def make_method(name, marker):
+    return pt.ABIReturnSubroutine(plain_fn(name, marker))
 
 
 def build_router(case):
@@ -64,7 +68,16 @@ def build_router(case):
     router = pt.Router("r", pt.BareCallActions(**bare_kw) if bare_kw else None, clear_state=clear_action)
     for k, m in enumerate(case.get("methods", [])):
         kw = {oc: CC[cc] for oc, cc in m["cfg"].items() if cc != NEVER}
-        router.add_method_handler(make_method(m["name"], "M" + m["name"]), method_config=pt.MethodConfig(**kw))
+        if m.get("via") == "decorator":
+            # the @router.method(...) registration path: keywords given -> the others default to NEVER;
+            # no keyword at all -> no_op=CALL (the case generator only uses that default form for that config)
+            impl = plain_fn(m["name"], "M" + m["name"])
+            if m.get("default_form"):
+                router.method(impl)
+            else:
+                router.method(**kw)(impl)
+        else:
+            router.add_method_handler(make_method(m["name"], "M" + m["name"]), method_config=pt.MethodConfig(**kw))
     return router
 
 
@@ -93,8 +106,9 @@ def calls_for(case):
         sels.append(selector(case["methods"][0]["name"] + "()void") + b"\x00")
     for sel in sels:
         for oc in (0, 1, 2, 4, 5):
-            for creating in (False, True):
-                yield sel, oc, creating
+            # application id 0 = creation; 1 (the smallest non-zero id), 7 and 2^64-1 = ordinary calls
+            for app_id in (0, 1, 7, (1 << 64) - 1):
+                yield sel, oc, app_id
 
 
 def check_case(case, out, versions):
@@ -117,9 +131,10 @@ def check_case(case, out, versions):
             continue
         pa = asm.assemble(approval)
         pc = asm.assemble(clear)
-        for sel, oc, creating in calls_for(case):
+        for sel, oc, app_id in calls_for(case):
+            creating = app_id == 0
             args = [] if sel is None else [sel]
-            txn = interp.default_txn(ApplicationArgs=args, OnCompletion=oc, ApplicationID=0 if creating else 7)
+            txn = interp.default_txn(ApplicationArgs=args, OnCompletion=oc, ApplicationID=app_id)
             res = interp.run(pa, interp.Ctx(mode="A", group=[txn]), fuel=20000)
             cnt["traces_validated"] = cnt.get("traces_validated", 0) + 1
             want = expected(case, sel, oc, creating)
@@ -174,6 +189,12 @@ def router_cases(tier):
         if not any(combo):
             continue
         cases.append({"methods": [{"name": "m0", "cfg": dict(zip(OCS, combo))}], "bare": {}, "clear": "none"})
+    # (a') the same through the @router.method(...) decorator path (and its keyword-free default form)
+    for combo in itertools.product((NEVER, CALL, CREATE, ALL), repeat=5):
+        if not any(combo):
+            continue
+        cases.append({"methods": [{"name": "d0", "cfg": dict(zip(OCS, combo)), "via": "decorator"}], "bare": {}, "clear": "none"})
+    cases.append({"methods": [{"name": "d0", "cfg": {"no_op": CALL}, "via": "decorator", "default_form": True}], "bare": {}, "clear": "none"})
     # (b) every bare configuration beside one fixed method
     for combo in itertools.product((NEVER, CALL, CREATE, ALL), repeat=5):
         cases.append({"methods": [{"name": "m0", "cfg": {"no_op": CALL}}], "bare": dict(zip(OCS, combo)), "clear": "approve"})
